@@ -5,7 +5,7 @@ From AK Require Import C16.Instr gen.C16_Consts C16.Model C16.LemList.
 Import ListNotations.
 Open Scope Z_scope.
 
-Definition supplied (h : headers) : bool := key_in hdr_test_key h.
+Definition supplied (h : headers) : bool := supplied_test h.
 
 (* what the opener must have seen for a request with caller headers h *)
 Definition event_ok (cp : str) (h : headers) (e : event) : Prop :=
@@ -62,7 +62,7 @@ Variables (prog cs0 : list instr) (r0 : nat) (ar0 : nat -> option Z).
 Hypothesis Hprog : prog = ICheck :: IAcquire :: cs0 ++ [IRelease; IEmit r0].
 Hypothesis Hcs : abs_cs cs0 0 (fun _ => None) = Some (1, ar0).
 Hypothesis Har : ar0 r0 = Some 0.
-Hypothesis Hkeys : hdr_test_key = hdr_set_key.
+Hypothesis Hkeys : hdr_test_key = map lower hdr_set_key.
 Hypothesis Hobs : str_eqb (cap hdr_set_key) obs_key = true.
 Variable c0 : Z.
 Variable Rs : list (list headers).
@@ -156,12 +156,21 @@ Lemma hist_finish R th e :
   hist cp R th -> hist cp R (finish th e).
 Proof. apply histP_finish. Qed.
 
+(* no spelling of the key in h: in particular not the spelling that is set *)
+Lemma supplied_false_key_in h : supplied h = false -> key_in hdr_set_key h = false.
+Proof.
+  unfold supplied, supplied_test, key_in.
+  induction h as [|[k v] r IH]; [reflexivity|]. cbn [existsb fst].
+  intros H. apply orb_false_elim in H as [H1 H2]. rewrite (IH H2), orb_false_r.
+  destruct (str_eqb k hdr_set_key) eqn:E; [|reflexivity].
+  apply str_eqb_eq in E. subst k. rewrite Hkeys, str_eqb_refl in H1. discriminate.
+Qed.
+
 Lemma emit_value h n :
   supplied h = false ->
   sent_value (dict_set h hdr_set_key (fmt cp n)) None = Some (fmt cp n).
 Proof.
-  intros Hs. unfold supplied in Hs. rewrite Hkeys in Hs.
-  rewrite dict_set_absent by exact Hs. rewrite sent_value_snoc, Hobs. reflexivity.
+  intros Hs. rewrite dict_set_absent by exact (supplied_false_key_in h Hs). rewrite sent_value_snoc, Hobs. reflexivity.
 Qed.
 
 Lemma pending_tail rest th :
@@ -295,7 +304,7 @@ Proof.
     + discriminate.
     + (* the check *)
       rewrite Hprog in Hc. injection Hc as -> ->. rewrite Hctr.
-      destruct (key_in hdr_test_key (hdrs th)) eqn:Hk.
+      destruct (supplied_test (hdrs th)) eqn:Hk.
       * rewrite <- Hctr. apply (inv_local st t th); auto.
         -- apply O_pass; [reflexivity|exact Hk].
         -- unfold handed, pending. cbn [out code]. rewrite Hcode. reflexivity.
